@@ -217,7 +217,11 @@ class MQTTTransport(Transport):
         """Publish a command string to the gateway via MQTT."""
         if not message:
             return
-        topic, payload, qos = self.gateway.parse_message_to_mqtt(message)
+        try:
+            topic, payload, qos = self.gateway.parse_message_to_mqtt(message)
+        except ValueError:
+            _LOGGER.error("Unable to publish invalid command: %s", message.strip())
+            return
         topic = self.out_prefix + topic
         try:
             _LOGGER.debug("Publishing %s", message.strip())
